@@ -529,7 +529,7 @@ fn build_faults(n_deliveries: usize, n_sends: usize) -> Vec<(String, Faults<Msg>
 
 pub fn run(mut rep: Report) -> i32 {
     let thorough = rep.thorough();
-    let max_dev = if thorough { 4 } else { 2 };
+    let max_dev = if thorough { 6 } else { 2 };
     rep.rule = "case = (successful transcript variant, one injected fault at one transcript position, choice vector of select!-start-branch and late-frame decisions); counted non-trivial when the injected fault was actually reached by the session (or the case is the fault-free transcript) and all events on the session's broadcast channel were judged by the lifecycle automaton".into();
     rep.assume("the remote is scripted: it does not validate what the session sends, it only reacts to a Close frame (closes its stream) where the variant says so");
     rep.assume("exactly one fault per execution; store faults (TopicStore::resolve, LogStore) and a broadcast channel without receivers are outside the fault alphabet");
